@@ -218,6 +218,17 @@ func TestVerifC12(t *testing.T) {
 				if !bytes.Equal(d2.PublicKey, gr.g.PublicKey) {
 					rep.Violation("C12/descriptor-names-another-group", gr.name, gr.name)
 				}
+				// the descriptor designates the logs the member uses: same access-controller address (the log address
+				// is derived from it) for both stores, computed from the group as held and from its descriptor
+				for _, st := range []string{"wesh_group_metadata", "wesh_group_messages"} {
+					acFull, e1 := defaultACForGroup(sg, st)
+					acDesc, e2 := defaultACForGroup(d2, st)
+					same := e1 == nil && e2 == nil && acFull.GetAddress().Equals(acDesc.GetAddress())
+					rep.Eval(fmt.Sprintf("descriptor-shape/%s/same-log-address=%v", gr.name, same))
+					if (e1 == nil) != (e2 == nil) || (e1 == nil && !same) {
+						rep.Violation("C12/descriptor-designates-other-logs", fmt.Sprintf("%s group held with sign_pub=%d link_key=%d bytes, %s store: the log address computed from the group (%v) and from its replication descriptor (%v) differ - the replication server would replicate logs nobody writes to", gr.name, len(sg.SignPub), len(sg.LinkKey), st, e1, e2), gr.name)
+					}
+				}
 			}
 			// a descriptor filtered again stays a descriptor
 			if d3, err := FilterGroupForReplication(desc); err == nil && (len(d3.Secret) != 0 || len(d3.SecretSig) != 0) {
